@@ -23,9 +23,18 @@ func resultDigest(r *CallResult) []string {
 // campaignC18 runs several clients, each issuing Parse calls on the same
 // generated package, under the seeded scheduler and one shared simulated
 // pool, and compares every call with the same call executed alone.
+var cappedParsers = map[string]int{}
+
 func campaignC18(p *Parser, req *Request, resp *Response) {
 	clients := req.Clients
 	stepCap := req.StepCap
+	if cappedParsers[p.Name] >= 2 && !req.UseReplay {
+		// this parser does not terminate on its own (a grammar whose recursion
+		// pigeon accepts but cannot bound: C07/C08 territory); unwinding a step-cap
+		// abort out of a very deep recursion is slow, so stop spending time on it
+		resp.stat("skipped_nonterminating_parser", 1)
+		return
+	}
 	h0 := DeepHash(p.G())
 	// 1. together
 	simsync.Reset(req.Pool)
@@ -76,6 +85,29 @@ func campaignC18(p *Parser, req *Request, resp *Response) {
 	resp.Runs += len(clients)
 	h1 := DeepHash(p.G())
 	concChoices := simrt.Choices()
+	// what the simulator did in the concurrent run (before the solo runs reset it)
+	switches := 0
+	for _, c := range cls {
+		switches += c.Switches
+	}
+	yields := int(simrt.Yields())
+	tr := simrt.Trace()
+	poolStats := simsyncStats()
+	record := func() {
+		resp.stat("context_switches", switches)
+		if switches > 0 {
+			resp.stat("schedules_with_preemption", 1)
+		}
+		resp.stat("scheduling_points", yields)
+		hh := fnv.New64a()
+		for _, x := range tr {
+			hh.Write([]byte{byte(x), byte(x >> 8), byte(x >> 16)})
+		}
+		resp.Hashes = append(resp.Hashes, fmt.Sprintf("%x", hh.Sum64()))
+		for k, v := range poolStats {
+			resp.stat("pool_"+k, v)
+		}
+	}
 	// 3. every call alone, on fresh pools, no scheduler. The calls are run
 	// alone only after the concurrent run, so that the concurrent run meets the
 	// package in whatever state earlier cases of this process left it (cold at
@@ -90,32 +122,16 @@ func campaignC18(p *Parser, req *Request, resp *Response) {
 			resp.Runs++
 			if r.Aborted || r.Overflow {
 				resp.stat("solo_capped", 1)
+				cappedParsers[p.Name]++
 				return
 			}
 			solo[i][j] = r
 		}
 	}
+	record()
 	add := func(class, msg string, detail map[string]any) {
 		resp.Violations = append(resp.Violations, Violation{Class: class, Msg: msg, Detail: detail, Choices: concChoices,
 			Attrs: map[string]string{"class": class, "clients": fmt.Sprint(len(clients)), "optimized": fmt.Sprint(!p.Has["Memoize"]), "strategy": fmt.Sprint(sc.Strategy)}})
-	}
-	switches := 0
-	for _, c := range cls {
-		switches += c.Switches
-	}
-	resp.stat("context_switches", switches)
-	if switches > 0 {
-		resp.stat("schedules_with_preemption", 1)
-	}
-	resp.stat("scheduling_points", int(simrt.Yields()))
-	tr := simrt.Trace()
-	hh := fnv.New64a()
-	for _, x := range tr {
-		hh.Write([]byte{byte(x), byte(x >> 8), byte(x >> 16)})
-	}
-	resp.Hashes = append(resp.Hashes, fmt.Sprintf("%x", hh.Sum64()))
-	for k, v := range simsyncStats() {
-		resp.stat("pool_"+k, v)
 	}
 	if dead {
 		add("deadlock", "the clients blocked each other: no client could run although not all were done", nil)
